@@ -654,6 +654,14 @@ static void snapshot_inner(const char *tag)
 		if (s->open && s->armed) { printf("%st%d@%llu", first ? "" : ",", t, s->deadline); first = 0; }
 	}
 	if (first) printf("-");
+#ifdef SIMK_NO_INTERNALS
+	/* built without access to the daemon's structures (their declarations changed): counters only */
+	printf(" now=%llu allocs=%lu internals=0\n", now_ns, n_allocs);
+	(void)line;
+	(void)first;
+	fflush(stdout);
+	return;
+#else
 	printf(" now=%llu allocs=%lu\n", now_ns, n_allocs);
 	(void)line;
 	if (strcmp(tag, "SNAP") != 0) { fflush(stdout); return; }
@@ -729,6 +737,7 @@ static void snapshot_inner(const char *tag)
 		}
 	}
 	fflush(stdout);
+#endif
 }
 
 /* ------------------------------------------------------------------ script interpreter */
